@@ -62,4 +62,24 @@ var Registry = map[string]func(c *Ctx, arg string) error{
 		}
 		return nil
 	},
+	"submitter": func(c *Ctx, arg string) error {
+		if c.BehDir != "" {
+			parts := strings.SplitN(arg, ":", 2)
+			ih, err := strconv.Atoi(parts[0])
+			if err != nil || len(parts) != 2 {
+				return err
+			}
+			lim, _ := strconv.Atoi(parts[1])
+			names, behs, err := LoadBehaviours(c.BehDir)
+			if err != nil {
+				return err
+			}
+			for i := range behs {
+				RunSubmitBehaviour(c, names[i], behs[i], uint64(ih), uint64(lim))
+			}
+			return nil
+		}
+		RunSubmitScenarios(c)
+		return nil
+	},
 }
